@@ -327,6 +327,31 @@ breaking('W11-seed-C02-r5m2', {'C02': 'W11'}, patch='/verif/selftest/patches/see
 breaking('W8-seed-C02-r5m3', {'C02': 'W8'}, patch='/verif/selftest/patches/seed_C02_r5m3.diff')
 breaking('HM5-seed-C06-r5m1', {'C06': 'HM5', 'C05': 'HM5'}, patch='/verif/selftest/patches/seed_C06_r5m1.diff')
 breaking('MC3-seed-C06-r5m3', {'C06': 'MC3', 'C05': 'MC3'}, patch='/verif/selftest/patches/seed_C06_r5m3.diff')
+breaking('M3-seed-C11-r5m1', {'C11': 'M3'}, patch='/verif/selftest/patches/seed_C11_r5m1.diff')
+breaking('M3-seed-C11-r5m2', {'C11': 'M3'}, patch='/verif/selftest/patches/seed_C11_r5m2.diff')
+breaking('M3-seed-C11-r5m3', {'C11': 'M3'}, patch='/verif/selftest/patches/seed_C11_r5m3.diff')
+breaking('QF1-seed-C12-r5m1', {'C12': 'QF1'}, patch='/verif/selftest/patches/seed_C12_r5m1.diff')
+breaking('HM6-seed-C12-r5m2', {'C12': 'HM6'}, patch='/verif/selftest/patches/seed_C12_r5m2.diff')
+breaking('V3-seed-C13-r5m1', {'C13': 'V3'}, patch='/verif/selftest/patches/seed_C13_r5m1.diff')
+breaking('HE1-seed-C13-r5m2', {'C01': 'HE1'}, patch='/verif/selftest/patches/seed_C13_r5m2.diff')
+breaking('V5-seed-C13-r5m3', {'C13': 'V5'}, patch='/verif/selftest/patches/seed_C13_r5m3.diff')
+breaking('GR8-seed-C14-r5m2', {'C14': 'GR8'}, patch='/verif/selftest/patches/seed_C14_r5m2.diff')
+breaking('HM6-seed-C14-r5m3', {'C14': 'HM6'}, patch='/verif/selftest/patches/seed_C14_r5m3.diff')
+breaking('AG7-seed-C15-r5m1', {'C15': 'AG7'}, patch='/verif/selftest/patches/seed_C15_r5m1.diff')
+breaking('PG2-seed-C15-r5m2', {'C15': 'PG2'}, patch='/verif/selftest/patches/seed_C15_r5m2.diff')
+breaking('F3-seed-C15-r5m3', {'C15': 'F3'}, patch='/verif/selftest/patches/seed_C15_r5m3.diff')
+breaking('DT11-seed-C16-r5m1', {'C16': 'DT11'}, patch='/verif/selftest/patches/seed_C16_r5m1.diff')
+breaking('MC3-seed-C16-r5m2', {'C16': 'MC3'}, patch='/verif/selftest/patches/seed_C16_r5m2.diff')
+breaking('DT6C-seed-C16-r5m3', {'C16': 'DT6C'}, patch='/verif/selftest/patches/seed_C16_r5m3.diff')
+breaking('LG1-seed-C17-r5m1', {'C17': 'LG1'}, patch='/verif/selftest/patches/seed_C17_r5m1.diff')
+breaking('DT2-seed-C17-r5m3', {'C17': 'DT2'}, patch='/verif/selftest/patches/seed_C17_r5m3.diff')
+breaking('UPB1-seed-C18-r5m1', {'C18': 'UPB1'}, patch='/verif/selftest/patches/seed_C18_r5m1.diff')
+breaking('F1-seed-C18-r5m2', {'C18': 'F1'}, patch='/verif/selftest/patches/seed_C18_r5m2.diff')
+breaking('HM6-seed-C18-r5m3', {'C18': 'HM6'}, patch='/verif/selftest/patches/seed_C18_r5m3.diff')
+breaking('Q3-seed-C19-r5m1', {'C19': 'Q3'}, patch='/verif/selftest/patches/seed_C19_r5m1.diff')
+breaking('Q4-seed-C19-r5m2', {'C19': 'Q4'}, patch='/verif/selftest/patches/seed_C19_r5m2.diff')
+breaking('MC3-seed-C19-r5m3', {'C19': 'MC3'}, patch='/verif/selftest/patches/seed_C19_r5m3.diff')
+breaking('AC1-seed-C20-r5m3', {'C20': 'AC1'}, patch='/verif/selftest/patches/seed_C20_r5m3.diff')
 breaking('refix-get_gme_2qubit', {'C13': 'F2', 'C05': 'F2'}, patch_reverse='fix_78cd862.diff')
 
 # ---- behaviour-preserving edits for the second half of the round-3 rules
